@@ -24,51 +24,62 @@ Definition zof (n : N) : Z := Z.of_N n.
 Definition ok2 (i : instr) : dec_result := DecOk 2 i.
 Definition ok4 (i : instr) : dec_result := DecOk 4 i.
 
+(* the five 32-bit leaves of the decoder, in the order of its if-chain *)
+Definition dec32_msr (h0 h1 : N) : dec_result :=
+  if negb (N.eqb (fld h0 4 1) 0) || negb (N.eqb (fld h1 8 47) 8) then DecErr Unpredictable
+  else
+    let* r := fld h0 0 15 in
+    if reg_eqb r SP || reg_eqb r PC then DecErr Unpredictable
+    else match sysreg_of_num (fld h1 0 255) with
+         | Some sys => ok4 (Msr sys r)
+         | None => DecErr Unpredictable
+         end.
+
+Definition dec32_barrier (h0 h1 : N) : dec_result :=
+  let barrier (i : instr) :=
+    if negb (N.eqb (fld h0 0 15) 15) || negb (N.eqb (fld h1 8 47) 15) then DecErr Unpredictable
+    else if negb (N.eqb (fld h1 0 15) 15) then DecErr Reserved
+    else ok4 i in
+  match fld h1 4 15 with
+  | 0 | 1 | 2 | 3 => DecErr Undefined
+  | 4 => barrier Dsb
+  | 5 => barrier Dmb
+  | 6 => barrier Isb
+  | 7 | 8 | 9 | 10 | 11 | 12 | 13 | 14 | 15 => DecErr Undefined
+  | _ => DecPanic
+  end.
+
+Definition dec32_mrs (h0 h1 : N) : dec_result :=
+  if negb (N.eqb (fld h0 0 31) 15) || negb (N.eqb (fld h1 13 1) 0) then DecErr Unpredictable
+  else
+    let* r := fld h1 8 15 in
+    if reg_eqb r SP || reg_eqb r PC then DecErr Unpredictable
+    else match sysreg_of_num (fld h1 0 255) with
+         | Some sys => ok4 (Mrs r sys)
+         | None => DecErr Unpredictable
+         end.
+
+Definition dec32_udfw (h0 h1 : N) : dec_result :=
+  ok4 (Udfw (N.lor (N.land (N.land (N.shiftl h0 12) 0xFFFF) 0xF000) (fld h1 0 0xFFF))).
+
+Definition dec32_bl (h0 h1 : N) : dec_result :=
+  let off0 := shl32 (zof (fld h1 0 0x7FF)) 1 in
+  let off1 := Z.lor off0 (shl32 (zof (fld h0 0 0x3FF)) 12) in
+  (* (!(instr1 >> 11) & 1): the complement of bit 11 *)
+  let nb11 := N.land (N.lxor (N.shiftr h1 11) 0xFFFF) 1 in
+  let nb13 := N.land (N.lxor (N.shiftr h1 13) 0xFFFF) 1 in
+  let off2 := Z.lor off1 (shl32 (zof nb11) 22) in
+  let off3 := Z.lor off2 (shl32 (zof nb13) 23) in
+  let off4 := Z.lxor off3 (sar32 (shl32 (zof (fld h0 10 1)) 31) 9) in
+  ok4 (Bl off4).
+
 Definition dec32 (h0 h1 : N) : dec_result :=
   if N.eqb (fld h0 11 3) 2 && N.eqb (fld h1 15 1) 1 then
-    if N.eqb (fld h0 5 63) 28 && N.eqb (fld h1 12 5) 0 then
-      if negb (N.eqb (fld h0 4 1) 0) || negb (N.eqb (fld h1 8 47) 8) then DecErr Unpredictable
-      else
-        let* r := fld h0 0 15 in
-        if reg_eqb r SP || reg_eqb r PC then DecErr Unpredictable
-        else match sysreg_of_num (fld h1 0 255) with
-             | Some sys => ok4 (Msr sys r)
-             | None => DecErr Unpredictable
-             end
-    else if N.eqb (fld h0 4 127) 59 && N.eqb (fld h1 12 5) 0 then
-      let barrier (i : instr) :=
-        if negb (N.eqb (fld h0 0 15) 15) || negb (N.eqb (fld h1 8 47) 15) then DecErr Unpredictable
-        else if negb (N.eqb (fld h1 0 15) 15) then DecErr Reserved
-        else ok4 i in
-      match fld h1 4 15 with
-      | 0 | 1 | 2 | 3 => DecErr Undefined
-      | 4 => barrier Dsb
-      | 5 => barrier Dmb
-      | 6 => barrier Isb
-      | 7 | 8 | 9 | 10 | 11 | 12 | 13 | 14 | 15 => DecErr Undefined
-      | _ => DecPanic
-      end
-    else if N.eqb (fld h0 5 63) 31 && N.eqb (fld h1 12 5) 0 then
-      if negb (N.eqb (fld h0 0 31) 15) || negb (N.eqb (fld h1 13 1) 0) then DecErr Unpredictable
-      else
-        let* r := fld h1 8 15 in
-        if reg_eqb r SP || reg_eqb r PC then DecErr Unpredictable
-        else match sysreg_of_num (fld h1 0 255) with
-             | Some sys => ok4 (Mrs r sys)
-             | None => DecErr Unpredictable
-             end
-    else if N.eqb (fld h0 4 127) 127 && N.eqb (fld h1 12 7) 2 then
-      ok4 (Udfw (N.lor (N.land (N.land (N.shiftl h0 12) 0xFFFF) 0xF000) (fld h1 0 0xFFF)))
-    else if N.eqb (fld h1 12 5) 5 then
-      let off0 := shl32 (zof (fld h1 0 0x7FF)) 1 in
-      let off1 := Z.lor off0 (shl32 (zof (fld h0 0 0x3FF)) 12) in
-      (* (!(instr1 >> 11) & 1): the complement of bit 11 *)
-      let nb11 := N.land (N.lxor (N.shiftr h1 11) 0xFFFF) 1 in
-      let nb13 := N.land (N.lxor (N.shiftr h1 13) 0xFFFF) 1 in
-      let off2 := Z.lor off1 (shl32 (zof nb11) 22) in
-      let off3 := Z.lor off2 (shl32 (zof nb13) 23) in
-      let off4 := Z.lxor off3 (sar32 (shl32 (zof (fld h0 10 1)) 31) 9) in
-      ok4 (Bl off4)
+    if N.eqb (fld h0 5 63) 28 && N.eqb (fld h1 12 5) 0 then dec32_msr h0 h1
+    else if N.eqb (fld h0 4 127) 59 && N.eqb (fld h1 12 5) 0 then dec32_barrier h0 h1
+    else if N.eqb (fld h0 5 63) 31 && N.eqb (fld h1 12 5) 0 then dec32_mrs h0 h1
+    else if N.eqb (fld h0 4 127) 127 && N.eqb (fld h1 12 7) 2 then dec32_udfw h0 h1
+    else if N.eqb (fld h1 12 5) 5 then dec32_bl h0 h1
     else DecErr Undefined
   else DecErr Undefined.
 
